@@ -38,20 +38,24 @@ Definition ljoin_lest (items : list str) (sep : str) : str :=
   | x :: rest => x ++ concat (map (fun y => match y with [] => [] | _ => sep ++ y end) rest)
   end.
 
-Section LexFmt.
+(* The formatter, generic in the two spacing strings (`space.format_terms`, `space.format_items`):
+   the real formatter is the instance at the format's own strings; the instance at two empty
+   strings is what the parser's `idealize_env` leaves of a formatted text (Proofs/LexPStrip.v). *)
+Section LexFmtG.
   Variable F : lfmt.
+  Variable format_terms format_items : str.
 
-  Fixpoint lex_fmt_term (t : lterm) : str :=
+  Fixpoint lex_fmt_term_g (t : lterm) : str :=
     match t with
     | LAtom prefix name => prefix ++ name                       (* template_atom *)
     | LCompound connecter terms =>
-        ltemplate_compound (fst (l_compound_brackets F)) connecter (l_separator F) (l_format_terms F)
-                           (snd (l_compound_brackets F)) (map lex_fmt_term terms)
+        ltemplate_compound (fst (l_compound_brackets F)) connecter (l_separator F) format_terms
+                           (snd (l_compound_brackets F)) (map lex_fmt_term_g terms)
     | LSet lbr terms rbr =>
-        ltemplate_compound_set lbr (l_separator F) (l_format_terms F) rbr (map lex_fmt_term terms)
+        ltemplate_compound_set lbr (l_separator F) format_terms rbr (map lex_fmt_term_g terms)
     | LStatement copula subject predicate =>
-        ltemplate_statement (fst (l_statement_brackets F)) (lex_fmt_term subject) copula
-                            (lex_fmt_term predicate) (l_format_terms F) (snd (l_statement_brackets F))
+        ltemplate_statement (fst (l_statement_brackets F)) (lex_fmt_term_g subject) copula
+                            (lex_fmt_term_g predicate) format_terms (snd (l_statement_brackets F))
     end.
 
   (* _format_truth: an empty truth prints nothing *)
@@ -66,22 +70,27 @@ Section LexFmt.
     fst (l_budget_brackets F) ++ ljoin_to (l_budget_separator F) budget ++ snd (l_budget_brackets F).
 
   (* _format_sentence = template_sentence(term, punctuation, stamp, truth, format_items) *)
-  Definition lex_fmt_sentence (s : lsentence) : str :=
-    lex_fmt_term (ls_term s) ++
-    ljoin_lest [ls_punct s; ls_stamp s; lex_fmt_truth (ls_truth s)] (l_format_items F).
+  Definition lex_fmt_sentence_g (s : lsentence) : str :=
+    lex_fmt_term_g (ls_term s) ++
+    ljoin_lest [ls_punct s; ls_stamp s; lex_fmt_truth (ls_truth s)] format_items.
 
   (* _format_task: budget, then (format_items, sentence) unless the sentence text is empty *)
-  Definition lex_fmt_task (k : ltask) : str :=
+  Definition lex_fmt_task_g (k : ltask) : str :=
     let b := lex_fmt_budget (lt_budget k) in
-    match lex_fmt_sentence (lt_sentence k) with
+    match lex_fmt_sentence_g (lt_sentence k) with
     | [] => b
-    | s => b ++ l_format_items F ++ s
+    | s => b ++ format_items ++ s
     end.
 
-  Definition lex_fmt (v : lnarsese) : str :=
+  Definition lex_fmt_g (v : lnarsese) : str :=
     match v with
-    | NTerm t => lex_fmt_term t
-    | NSentence s => lex_fmt_sentence s
-    | NTask k => lex_fmt_task k
+    | NTerm t => lex_fmt_term_g t
+    | NSentence s => lex_fmt_sentence_g s
+    | NTask k => lex_fmt_task_g k
     end.
-End LexFmt.
+End LexFmtG.
+
+Definition lex_fmt_term (F : lfmt) : lterm -> str := lex_fmt_term_g F (l_format_terms F).
+Definition lex_fmt_sentence (F : lfmt) : lsentence -> str := lex_fmt_sentence_g F (l_format_terms F) (l_format_items F).
+Definition lex_fmt_task (F : lfmt) : ltask -> str := lex_fmt_task_g F (l_format_terms F) (l_format_items F).
+Definition lex_fmt (F : lfmt) : lnarsese -> str := lex_fmt_g F (l_format_terms F) (l_format_items F).
